@@ -57,7 +57,7 @@ theorem subarray_spec (a : ArraySized) (b e : Nat) (m : Mem) (h : a.Inv) (hb : b
     have c : (decide ((e - b + 1) * a.dataLen ≤ (fresh (a.capacity * a.dataLen)).length) &&
         decide (a.dataLen * b + (e - b + 1) * a.dataLen ≤ a.buf.length)) = true := by simp only [c1, c2]; simp
     rw [c]
-    refine ⟨_, rfl, ⟨j1, by dsimp only; omega, by dsimp only; omega, ?_, by dsimp only; omega⟩, ?_, rfl, rfl, rfl, rfl, h3, h4⟩
+    refine ⟨_, rfl, ⟨j1, by dsimp only; omega, by dsimp only; omega, ?_, Nat.le_trans (slots_le (by dsimp only; omega)) j5⟩, ?_, rfl, rfl, rfl, rfl, h3, h4⟩
     · simp only [Buf.length_memcpy, fresh, List.length_replicate]; exact slots_le (by omega)
     · rw [abs_eq_elems, abs_eq_elems]
       dsimp only
@@ -207,11 +207,11 @@ theorem filter_spec (a : ArraySized) (p : List Nat → Bool) (m : Mem) (h : a.In
     exact ⟨trivial, trivial, h3⟩
 
 /-! ### a derived array can grow -/
-/-- when the allocator grants the request and the capacity is below the limit, `add` succeeds -/
-theorem add_ok_of_alloc (a : ArraySized) (e : Buf Nat) (m : Mem) (h : a.Inv) (hg : a.GrowOk)
-    (he : e.length = a.dataLen) (hal : m.alloc.1 = true) (hc : a.capacity ≠ CC_MAX_ELEMENTS) :
+/-- when the allocator grants the request and the array is not at its size limit, `add` succeeds -/
+theorem add_ok_of_alloc (a : ArraySized) (e : Buf Nat) (m : Mem) (h : a.Inv)
+    (he : e.length = a.dataLen) (hal : m.alloc.1 = true) (hc : ¬ a.AtLimit) :
     (a.add e m).1 = .ok ∧ (a.add e m).2.1.abs = a.abs ++ [e] := by
-  rcases add_spec a e m h hg he with ⟨h1, _, h3, _⟩ | ⟨h1, _, _, _, h5, h6⟩
+  rcases add_spec a e m h he with ⟨h1, _, h3, _⟩ | ⟨h1, _, _, _, h5, h6⟩
   · exact ⟨h1, h3⟩
   · rcases h1 with h1 | h1
     · have := h5 h1; rw [hal] at this; cases this
